@@ -342,6 +342,18 @@ void vp_c15_param_mismatch(int x, int y, vp_obs& o)
   catch (...) { o.ret = 0; m.p(5, y); }     // rejected; the expectation is then satisfied by a fitting call
   o.x = x; o.y = y;
 }
+// C04: an expectation with a plain value operand ends its life unfulfilled: the report gives the expected parameter values
+void vp_c04_unfulfilled(int v, int n, vp_obs& o)
+{
+  vp_M2 m;
+  o.ret = 0;
+  {
+    REQUIRE_CALL(m, p(v, trompeloeil::_)).TIMES(2, 4);
+    if (n > 0) m.p(v, 0);
+    o.ret = 1;
+  }
+  o.x = v; o.y = n;
+}
 // C13 through the macros: REQUIRE_DESTRUCTION plumbing (lifetime_monitor_modifier, operator+), expected and unexpected destruction
 void vp_c13_macros(bool expect, vp_obs& o)
 {
